@@ -37,7 +37,8 @@ def strategy(tier, phase):
     from vlib import rmodel
 
     return st.fixed_dictionaries({"gen": st.sampled_from([2, 3, 4, 4]), "tape": rmodel.tape_strategy(), "outs": st.lists(st.integers(0, 60), min_size=1, max_size=2),
-                                  "ins": st.lists(st.integers(0, 60), min_size=0, max_size=3), "byname": st.integers(0, 3), "target": st.integers(0, 6), "annot": st.one_of(st.just([]), st.lists(st.tuples(st.integers(0, 40), st.integers(0, 7)).map(list), min_size=1, max_size=3)), "mode": st.integers(0, 3), "gattr": st.integers(0, 3)})
+                                  "ins": st.lists(st.integers(0, 60), min_size=0, max_size=3), "byname": st.integers(0, 3), "target": st.integers(0, 6), "annot": st.one_of(st.just([]), st.lists(st.tuples(st.integers(0, 40), st.integers(0, 7)).map(list), min_size=1, max_size=3)), "mode": st.integers(0, 3), "gattr": st.integers(0, 3),
+                                  "refg": st.sampled_from([False, False, True])})
 
 
 def nested_graphs(node):
@@ -184,11 +185,23 @@ def execute(case):
                 graphs_attr = True
         if graphs_attr:
             classes.append("graphs_attribute")
+    ref_graph_attr = False
+    if case.get("refg") and model.functions:
+        # a node of a function body that takes one of its graph-typed attributes from the function's attribute parameters
+        # (a reference attribute of type GRAPH has no graph of its own: there is nothing to walk)
+        fs_ = list(model.functions.values())
+        f_ = fs_[case["outs"][0] % len(fs_)]
+        body_nodes = list(deep_nodes(f_.graph))
+        if body_nodes:
+            body_nodes[case["outs"][-1] % len(body_nodes)].attributes.add(ir.RefAttr("c18_body", "c18_body_param", ir.AttributeType.GRAPH))
+            ref_graph_attr = True
+            graphs_attr = True  # (the execution oracle does not know the attribute: skipped)
+            classes.append("reference_attribute_of_graph_type")
     # ---- capture analysis on the whole graph and on every nested graph taken as root ----------------------------
     from onnx_ir import analysis
 
     roots = [model.graph] + [sg for n in deep_nodes(model.graph) for sg in nested_graphs(n) if any(nested_graphs(m) for m in sg)]
-    roots += [f.graph for f in model.functions.values() if any(nested_graphs(m) for m in f)]
+    roots += [f.graph for f in model.functions.values() if any(nested_graphs(m) for m in f) or ref_graph_attr]
     for ri, root in enumerate(roots):
         tag = "" if ri == 0 else "nested-root/"
         try:
